@@ -33,6 +33,8 @@ def main():
         if only and sid not in only:
             continue
         prop = sid.split("-")[0]
+        if "superseded" in json.load(open(os.path.join(SEEDED, sid, "meta.json"))):
+            continue  # the patch no longer applies to the repaired tree; meta.json names the equivalent mutant
         for c in [prop] + EXTRA.get(sid, []):
             jobs.append((sid, c))
     with ThreadPoolExecutor(max_workers=4) as ex:
@@ -65,6 +67,8 @@ def main():
                         sig = line.split("sig=")[1].strip()[:90]
                 else:
                     missed.append(f"{c}(rc={rc})")
+        if "superseded" in meta:
+            caught, missed, sig = ["(superseded, see meta.json)"], [], ""
         rows.append(f"| {sid} | {meta['property']} | {meta['demo_exit_with_change']}/{meta['demo_exit_without_change']} | {meta['pinned_tests_with_change'][:22]} | "
                     f"{', '.join(caught) or '-'}{(' ; not by ' + ', '.join(missed)) if missed else ''} | `{sig}` |")
     with open(os.path.join(SEEDED, "INDEX.md"), "w") as fh:
